@@ -52,6 +52,13 @@ def main() -> int:
     out: dict = {"name": d.name, "tier": a.tier, "seed": a.seed, "checks": {}}
     try:
         r = sh(["git", "-C", str(wt), "apply", str(d / "patch.diff")])
+        if r.returncode and meta.get("base"):
+            # the change was written against an earlier /repo commit and conflicts with a later fix:
+            # try it on that commit instead (the checks run against whatever tree VF_REPO_ROOT names)
+            sh(["git", "-C", str(wt), "checkout", "-q", "--detach", meta["base"]])
+            r = sh(["git", "-C", str(wt), "apply", str(d / "patch.diff")])
+            out["applied_on"] = meta["base"]
+            print(f"patch applied on base {meta['base']} (conflicts with /repo HEAD)")
         if r.returncode:
             print("patch does not apply:", r.stderr)
             return 2
